@@ -73,7 +73,7 @@ func c15errS(err error, tmplOp map[error]int) string {
 	if op, ok := tmplOp[err]; ok { // keyed by the error value itself (identity), not its text
 		return tag("tmpl", num(op))
 	}
-	return tag("?", atom(err.Error()))
+	return tag("?unclassified?", atom(err.Error()))
 }
 
 func c15(g *Gen) {
